@@ -36,7 +36,7 @@ ASSUMPTIONS = [
     "ill-typed operands: name/array/dict/non-numeric string where a number is required; name/array/dict where a string is required; the compound operators ' and \" only get missing-operand faults",
     "q/Q do not occur inside BT..ET (not allowed by ISO 8.2)",
 ]
-PROBES = ["split into >1 streams", "empty stream piece", "cut inside TJ array", "form invoked", "nested form", "form without own Resources", "operand fault: missing", "operand fault: ill-typed", "several operand faults in one program", "type3 font", "type0 font", "Tc nonzero across show operators", "double-quote operator", "TD sets leading", "q/Q restores text state", "text after form", "font cache eviction", "page origin non-zero"]
+PROBES = ["resource-less form shared by two callers", "page interpreted twice", "split into >1 streams", "empty stream piece", "cut inside TJ array", "form invoked", "nested form", "form without own Resources", "operand fault: missing", "operand fault: ill-typed", "several operand faults in one program", "type3 font", "type0 font", "Tc nonzero across show operators", "double-quote operator", "TD sets leading", "q/Q restores text state", "text after form", "font cache eviction", "page origin non-zero"]
 TIERS = {
     "quick": {"batches": 16, "runs": 1200, "budget_s": 45},
     "thorough": {"batches": 128, "runs": 2500, "budget_s": 900},
@@ -182,9 +182,9 @@ def gen_program(t, ctx, fonts, formnames, is_form=False):
     return prog
 
 
-def gen_fonts(t, ctx, base):
+def gen_fonts(t, ctx, base, n=None):
     fonts = {}
-    for i in range(t.rint(1, 3, "nfonts")):
+    for i in range(n or t.rint(1, 3, "nfonts")):
         f = gfx.make_font(t, base + i)
         if f.kind in ("type3", "type0"):
             ctx.probe(f.kind + " font")
@@ -192,23 +192,37 @@ def gen_fonts(t, ctx, base):
     return fonts
 
 
-def gen_forms(t, ctx, depth, counter, parent_fonts=None):
+def gen_forms(t, ctx, depth, counter, parent_fonts=None, shared=None):
+    """shared: a list that receives (name of a resource-less form, name of a sibling form that invokes the same form
+    object under other resources) - the page then invokes both."""
     forms = {}
     if depth >= 3:
         return forms
+    nores = []
     for i in range(t.weighted([5, 3, 2], "nforms")):
         sub = gen_forms(t, ctx, depth + 1, counter) if t.coin(35, 100, "form.nest") else {}
         if sub:
             ctx.probe("nested form")
         counter[0] += 10
-        if parent_fonts is not None and not sub and t.coin(25, 100, "form.nores"):
+        if parent_fonts is not None and not sub and t.coin(30, 100, "form.nores"):
             # no /Resources entry: the form uses its caller's resources (fonts under the caller's names)
             prog = gen_program(t, ctx, parent_fonts, set(), is_form=True)
             forms[b"Fm%d" % (i + 1)] = gfx.Form(gen_matrix(t, "form.matrix"), (F(0), F(0), F(200), F(200)), None, prog, {})
+            nores.append(b"Fm%d" % (i + 1))
             ctx.probe("form without own Resources")
             continue
-        fonts = gen_fonts(t, ctx, counter[0])
-        prog = gen_program(t, ctx, fonts, set(sub), is_form=True)
+        if nores and shared is not None and t.coin(60, 100, "form.share"):
+            # this form binds the page's font names to other fonts and invokes the same resource-less form object:
+            # one object, two callers, two sets of resources
+            fonts = gen_fonts(t, ctx, counter[0], n=len(parent_fonts))
+            sub = dict(sub)
+            sub[b"FmS"] = forms[nores[-1]]
+            prog = gen_program(t, ctx, fonts, set(sub), is_form=True) + [Op("Do", [Name(b"FmS")])]
+            shared.append((nores[-1], b"Fm%d" % (i + 1)))
+            ctx.probe("resource-less form shared by two callers")
+        else:
+            fonts = gen_fonts(t, ctx, counter[0])
+            prog = gen_program(t, ctx, fonts, set(sub), is_form=True)
         forms[b"Fm%d" % (i + 1)] = gfx.Form(gen_matrix(t, "form.matrix"), (F(0), F(0), F(200), F(200)), fonts, prog, sub)
     return forms
 
@@ -229,7 +243,14 @@ def build_document(t, fonts, forms, pieces, origin):
             d[name] = alloc(f.obj) if t.coin(70, 100, "font.indirect") else f.obj
         return d
 
+    made = {}
+
     def form_obj(fm):
+        if id(fm) not in made:
+            made[id(fm)] = form_obj1(fm)
+        return made[id(fm)]
+
+    def form_obj1(fm):
         data, _ = gfx.serialise(fm.prog, t)
         d = {b"Type": Name(b"XObject"), b"Subtype": Name(b"Form"), b"BBox": list(fm.bbox), b"Matrix": list(fm.matrix)}
         if fm.fonts is not None:
@@ -261,7 +282,8 @@ def flatten(item, out):
     return out
 
 
-def interpret(data, pol, ev, caching=True):
+def interpret(data, pol, ev, caching=True, passes=1):
+    """-> the glyphs of every pass over the page (same document, page and interpreter objects for all passes)."""
     seams.CHUNK.policy = pol
     seams.EVICT.set(ev)
     try:
@@ -269,8 +291,11 @@ def interpret(data, pol, ev, caching=True):
         dev = PDFPageAggregator(rm, laparams=None)
         interp = PDFPageInterpreter(rm, dev)
         pages = list(PDFPage.get_pages(BytesIO(data)))
-        interp.process_page(pages[0])
-        return flatten(dev.get_result(), [])
+        out = []
+        for _ in range(passes):
+            interp.process_page(pages[0])
+            out.append(flatten(dev.get_result(), []))
+        return out
     finally:
         seams.CHUNK.policy = None
         seams.EVICT.set(None)
@@ -368,8 +393,12 @@ def run(tape, ctx, item=None):
     devs = []
     counter = [0]
     fonts = gen_fonts(t, ctx, 0)
-    forms = gen_forms(t, ctx, 1, counter, parent_fonts=fonts)
+    shared = []
+    forms = gen_forms(t, ctx, 1, counter, parent_fonts=fonts, shared=shared)
     prog = gen_program(t, ctx, fonts, set(forms))
+    for a, b in shared:
+        # both callers of the shared form are invoked, in either order
+        prog += [Op("Do", [Name(x)]) for x in ((a, b) if t.coin(50, 100, "share.order") else (b, a))]
     origin = (0, 0) if t.coin(60, 100, "origin0") else (t.rint(-50, 100, "ox"), t.rint(-50, 100, "oy"))
     if origin != (0, 0):
         ctx.probe("page origin non-zero")
@@ -419,14 +448,19 @@ def run(tape, ctx, item=None):
             ctx.seam("chunk")
             cfg = "%s%s; pieces=%r; chunk=%s; fonts=%s" % (tag, " [" + fdesc + "]" if fdesc else "", pieces, pdesc, {k.decode(): v.kind for k, v in fonts.items()})
             seams.EVICT.evictions = 0
+            passes = 2 if t.coin(25, 100, "passes") else 1
             try:
-                chars = interpret(pdf, pol, ev, caching=not t.coin(20, 100, "fontcaching"))
+                results = interpret(pdf, pol, ev, caching=not t.coin(20, 100, "fontcaching"), passes=passes)
             except Exception as e:
                 devs.append(Dev("C05:%s:raise:%s@%s" % (tag, type(e).__name__, where(e)), "%r; %s" % (e, cfg)))
                 continue
             if seams.EVICT.evictions:
                 ctx.probe("font cache eviction")
-            compare(expected, chars, cfg, devs, tag if not split else tag + "-split")
+            compare(expected, results[0], cfg, devs, tag if not split else tag + "-split")
+            if passes == 2:
+                # the page interpreted again with the same document, page and interpreter objects shows the same
+                ctx.probe("page interpreted twice")
+                compare(expected, results[1], cfg + "; second pass over the same page object", devs, tag + "-second-pass")
             scen.append((pieces, pdesc, fdesc))
     seen = {}
     for d in devs:
